@@ -11,7 +11,11 @@
    second time with the adjustment patched in by the first) and whole fonts written with
    (*sfnt.Font).Write (also parsed by golang.org/x/image/font/sfnt) are recorded the same way: the
    corpus fonts and the fonts described by TLC from ContainerFonts.tla (units per em 16..16384, glyph
-   counts 1..1000, advances 0/1/32767, cmap codes U+0020/U+FFFF/astral, names absent/short/long).
+   counts 1..1000, advances 0/1/32767, cmap codes U+0020/U+FFFF/astral, names absent/short/long), fonts of
+   particular shapes (> 258 glyphs named in the standard Macintosh order, cmap tables with duplicate
+   subtables around distinct ones) and the font configurations of C01's exhaustive cover (FontCycleGen.tla:
+   layout tables, glyf sizes at the loca boundaries, composite instruction forms, tuned CFF INDEX sizes,
+   window-crossing tables, scalar sweeps), realised by harness/cmd/c01 in its "c03fonts" mode.
 All recorded traces are judged by TLC against ContainerTrace.tla, which parses the raw bytes itself.
 A failed line is re-recorded in isolation and re-validated before it counts.
 """
@@ -97,6 +101,15 @@ def _tlc_trace(ctx, trace, label):
     return fails, skipped
 
 
+def _load_c01():
+    """checks/C01.py, for its generator of font configurations (FontCycleGen cover); read-only use."""
+    import importlib.util
+    spec = importlib.util.spec_from_file_location("check_C01_for_C03", os.path.join(os.path.dirname(__file__), "C01.py"))
+    mod = importlib.util.module_from_spec(spec)
+    spec.loader.exec_module(mod)
+    return mod
+
+
 def _sig(case, clause):
     if case.get("kind") == "font":
         return {"kind": "font", "clause": clause, "font": case.get("name", "")}
@@ -115,13 +128,16 @@ def _size(case):
 
 def _replay_case(ctx, case, expect_clause=None, count=1, strict=True):
     """Re-record one case alone and let TLC judge it alone; report it if it fails again."""
-    binp = ctx.build("c03")
     d = ctx.subdir("replay")
     cp = os.path.join(d, "case.json")
     case.setdefault("seed", ctx.seed)       # font builders draw from VERIF_SEED
-    json.dump(case, open(cp, "w"))
     tp = os.path.join(d, "trace.ndjson")
-    ctx.run([binp, "one", cp, tp], env={"VERIF_SEED": str(case["seed"])})
+    if case.get("cover"):                   # a configuration of C01's cover, realised by the c01 binary
+        vlib.write_ndjson(cp, [case["cover"]])
+        ctx.run([ctx.build("c01"), "c03fonts", cp, tp], env={"VERIF_SEED": str(case["seed"])})
+    else:
+        json.dump(case, open(cp, "w"))
+        ctx.run([ctx.build("c03"), "one", cp, tp], env={"VERIF_SEED": str(case["seed"])})
     fails, _ = _tlc_trace(ctx, tp, "replay of one case")
     fails = [f for f in fails if f[2] not in HARNESS_CLAUSES]
     if not fails:
@@ -307,6 +323,42 @@ def run(ctx):
     _judge(ctx, tr, "ContainerTrace: TLC-described fonts", stats)
     os.remove(tr)
     nfonts += len(gen.cases)
+
+    # 6. V: fonts of particular shapes (more than 258 glyphs named in the standard Macintosh order, cmap tables
+    #    with duplicate subtables before/after distinct ones)
+    tr = os.path.join(d, "special.ndjson")
+    ctx.run([binp, "special", tr], timeout=900)
+    nfonts += sum(1 for _ in open(tr + ".cases"))
+    _judge(ctx, tr, "ContainerTrace: fonts of particular shapes", stats)
+    os.remove(tr)
+
+    # 7. V: the font configurations of C01's exhaustive cover (FontCycleGen.tla, Focus "cover"; realised by
+    #    harness/cmd/c01 Build): every group; in the quick tier a seed-dependent stride inside the big groups
+    c01 = _load_c01()
+    cover = c01._built_cases(ctx, 0, [30], 110001, 0, 0, "FontCycleGen cover (for C03)", focus="cover")
+    by_group = {}
+    for c in cover:
+        by_group.setdefault(c["cfg"]["group"], []).append(c)
+    chosen = []
+    for g, items in sorted(by_group.items()):
+        stride = {"sweep": 40, "onefactor": 3}.get(g, 1) if ctx.quick() else 1
+        chosen += items[ctx.seed % stride::stride]
+    ctx.log("cover: %d of %d configurations in %d groups" % (len(chosen), len(cover), len(by_group)))
+    b01 = ctx.build("c01")
+    for k in range(0, len(chosen), 900):
+        part = chosen[k:k + 900]
+        cin = os.path.join(d, "cover%d.in" % k)
+        vlib.write_ndjson(cin, part)
+        tr = os.path.join(d, "cover%d.ndjson" % k)
+        ctx.run([b01, "c03fonts", cin, tr], timeout=1800)
+        vlib.write_ndjson(tr + ".cases", [
+            {"id": c["id"], "kind": "font", "cover": c,
+             "name": "cover:%s/%s %s" % (c["cfg"]["group"], c["cfg"].get("vary", ""), c["cfg"]["kind"])} for c in part])
+        _judge(ctx, tr, "ContainerTrace: C01 cover fonts [%d:]" % k, stats)
+        os.remove(tr)
+    nfonts += len(chosen)
+    ctx.cov["bounds"]["cover"] = {"configurations": len(cover), "run": len(chosen),
+                                  "groups": {g: len(v) for g, v in sorted(by_group.items())}}
 
     ctx.cov["distinct_nontrivial"] = len(distinct) + nfonts
     ctx.cov["rule"] = ("distinct inputs of the real writer: maps enumerated by TLC + seeded random maps (distinct by "
